@@ -11,12 +11,12 @@ TEXT = {
  "C04": ("Same for lines (UAX #14 with the Example-7 tailoring, three-valued verdicts, mustBreak); theorems line_verdicts_eq_uax14 / line_segments_eq_uax14 / mustBreak_iff.", "3 C04"),
  "C05": ("Theorems for all byte lists and all states: progress (>=1 rune, >=1 byte), no over-run, segment ends at a decoded-rune boundary, chain partitions the input in at most len(input) calls, empty input gives zero values; for all five loop shapes. Memory aliasing is monitored on the real code, not proved.", "3 C05"),
  "C06": ("Theorems: from every coherent state the reported width is the documented width of the cluster's code points (composition rule proved equal to the loop's fold), coherence is preserved along the chain, StringWidth is the sum; per-code-point widths compared exhaustively (RW) and clusters against the Lean spec (WIDTHSPEC).", "3 C06"),
- "C07": ("Theorems for all code points: each table is sorted (kernel check on the regenerated table) hence binary search = interval lookup; every lookup equals the committed Unicode 15.0.0 reference classification (kernel-checked walks); fast paths agree; every code point's letter is in the alphabet of the certificates. Real lookups compared with the reference on all 1,114,112 code points (REF), and signature independence on the real transition functions (E3b).", "3 C07"),
+ "C07": ("Theorems for all 1,114,112 code points without enumeration: each regenerated table is sorted (kernel check) hence binary search = interval lookup; every lookup, fast paths included, equals the committed Unicode 15.0.0 reference classification (kernel-evaluated walks over 5515 reference rows, one module per table); code points with the same reference values are interchangeable anywhere in a text (C0xU.*_same_class, width_same_class); every code point's letter is in the alphabet of the certificates, which makes C01-C04 unconditional. Real lookups compared with the reference on all code points (REF), signature independence on the real functions (E3b), class handling through E3/SPEC/WIDTHSPEC.", "3 C07"),
  "C08": ("Theorems: pack/unpack round trip under the proved state ranges; Step is a first-cut loop over the lock-step product of the four transition functions; its clusters are FirstGraphemeCluster's; its flags decode to the line/word/sentence verdicts of the four specialised runs at the cluster's end.", "3 C08"),
  "C09": ("The model has one definition per byte/string pair; the translator re-checks on every run that the Go twins are the same text up to the renaming (twin normalisation), except StepString's early return, which is proved unobservable from every coherent state and along the whole chain.", "3 C09"),
  "C10": ("Theorems: every loop result depends on the input only through the decoded scalar values; re-encoding (ill-formed byte -> U+FFFD) preserves them; hence identical chains (segments in code points, widths, flags, states) on b and fix b; totality by construction, index safety of the table search.", "3 C10"),
- "C11": ("Theorems: after every reported boundary the carried state behaves as the fresh start on the suffix (kernel-checked certificate per segmenter) and cutting the text there does not change the verdicts before it (look-ahead never crosses a reported boundary); monitor re-segments prefix and suffix at every reported boundary on the real code.", "3 C11"),
- "C12": ("Theorems: HasTrailingLineBreak iff the last code point is one of the seven (table walk); mustBreak iff the spec verdict is '!' (from C04), which is 'previous class is BK/CR/LF/NL'; end flags; CR x LF in all four certificates.", "3 C12"),
+ "C11": ("Theorems for every text of code points and every reported boundary: after it the carried state behaves as the fresh start on the suffix (obligation inside the kernel-checked product certificates) and the verdicts before it are those of the prefix alone (second kernel-checked certificate per segmenter: two runs of the spec automaton, full text vs cut text; look-ahead never matters across a reported boundary); hence verdict lists and segment lists (lengths and the verdict ending each segment) compose (C11U.*_verdicts_compose, *_segments_compose). Monitor re-segments prefix and suffix at every reported boundary on the real code, all segmenters and Step.", "3 C11"),
+ "C12": ("Theorems: for every byte string HasTrailingLineBreak = (what DecodeLastRune returns is one of the seven code points) (hasTrailingLineBreak_iff, from the line-table walk); mustBreak iff the spec verdict is '!' (C04), which at a non-final boundary is 'previous class is BK/CR/LF/NL' (must_iff, nonfinal_must_iff); last segment / last cluster flags; CR x LF is the first rule of all four specs and U+000D/U+000A are CR/LF in all regenerated tables.", "3 C12"),
  "C13": ("Refinement theorem: every method preserves the relation to a cursor over the StepString results and returns the cursor's result, hence for every finite call sequence; Next is true exactly once per result.", "3 C13"),
  "C14": ("Theorems: count = number of clusters, 0 iff empty, <= length; ReverseString = clusters reversed (the odd early exit only fires on an empty rest), same length.", "3 C14"),
  "C15": ("Theorems: cluster, state and flags are independent of the setting; width is affine in it (three-point invariant through the loops); the variable is read only by runeWidth and never written (kernel-decided on regenerated facts); model=code and width spec re-run under settings 0,2,3,7.", "3 C15"),
@@ -54,7 +54,7 @@ def main():
         "engines": [{"name": "lean-proof", "path": "/verif/check", "serves_properties": sorted(PROPS),
                      "kind_free_text": "Lean 4 model + theorems (lake project /verif/lean), Go translator /verif/extract (regenerates constants, tables, rules, facts), Go harness /verif/harness (correspondence stages E1-E6, REF, RW, SPEC, WIDTHSPEC, ALLOC, monitors), driver /verif/check"}],
         "checks": checks,
-        "notes": "Every check regenerates the data part of the model from /repo's working tree, rebuilds the affected Lean modules (kernel re-check), audits axioms, and runs the correspondence stages and monitors; see DESIGN.md. known_findings.json lists repaired defects (15 'fix:' commits in /repo); no open findings.",
+        "notes": "Every check regenerates the data part of the model from /repo's working tree, rebuilds the affected Lean modules (kernel re-check), audits axioms, and runs the correspondence stages and monitors; see DESIGN.md. known_findings.json lists repaired defects (15 'fix:' commits in /repo); no open findings. seeded/ holds 102 confirmed seeded changes (all detected with a concrete replay) and behaviour-preserving rewrites on which all checks stay quiet.",
         "not_applicable": na,
     }
     json.dump(m, open("/verif/MANIFEST.json", "w"), indent=1)
